@@ -13,6 +13,7 @@ from common import ToolError, log  # noqa: E402
 
 MODULES = {
     "C01": "isa", "C04": "isa", "C13": "isa",
+    "C02": "asm",
 }
 
 
